@@ -26,7 +26,7 @@ LEVEL = "exploration"
 SHARDS = {"quick": 8, "thorough": 16}
 CPU_LIMIT = 60.0
 RULE = (
-    "catalogue of 14 cycle shapes x length 1-4 x 1-4 files x drawn embedding (extra declarations, file order, "
+    "catalogue of 17 cycle shapes x length 1-4 x 1-4 files x drawn embedding (extra declarations, file order, "
     "variant of the linking statement); every positional method at every identifier of every file, diagnostics on "
     "open/save, start-up indexing.  Quick tier: full catalogue x lengths 1-2 enumerated plus drawn embeddings; "
     "thorough: lengths 1-4 x many embeddings.  Non-trivial = the queried identifier lies on the cycle; distinct by "
@@ -38,7 +38,8 @@ ASSUMPTIONS = [
 ]
 
 SHAPES = ["use", "extends", "submodule", "pointer-init", "associate", "select-type", "tbp-link", "proc-pointer",
-          "fortran-include", "cpp-include", "component-type", "member-chain", "generic-interface", "use-rename"]
+          "fortran-include", "cpp-include", "component-type", "member-chain", "generic-interface", "use-rename",
+          "extends-tail", "proc-self-interface", "include-between-scopes"]
 
 
 def names(prefix, n):
@@ -168,6 +169,50 @@ def build(case):
         units.append(f"module cmod\n  implicit none\n{filler}{body}contains\n{impl}  subroutine use_it()\n" + "".join(f"    call {g}()\n" for g in gs)
                      + "  end subroutine use_it\nend module cmod\n")
         words |= set(gs)
+    elif shape == "extends-tail":
+        # an EXTENDS cycle of n types plus a chain of 1-2 types outside the cycle that extends into it; all of them bind
+        # the same name (walks that start outside the cycle never come back to their start)
+        ts = names("ctyp", n)
+        tail = names("ctail", 1 + v % 2)
+        body = ""
+        allt = []
+        for i, t in enumerate(ts):
+            allt.append((t, ts[(i + 1) % n]))
+        for j, t in enumerate(tail):
+            allt.append((t, ts[v % n] if j == 0 else tail[j - 1]))
+        if v % 3 == 0:
+            allt.reverse()
+        for t, parent in allt:
+            body += f"  type, extends({parent}) :: {t}\n    integer :: c_{t}\n  contains\n    procedure :: run => run_{t}\n  end type {t}\n"
+            words |= {t, f"c_{t}", f"run_{t}"}
+        impls = "".join(f"  subroutine run_{t}(self)\n    class({t}) :: self\n    self%c_{t} = 1\n  end subroutine run_{t}\n" for t, _ in allt)
+        words |= {"run"}
+        units.append(f"module cmod\n  implicit none\n{filler}{body}  type({tail[-1]}) :: obj\n  type({ts[0]}) :: cyc\ncontains\n{impls}  subroutine use_it()\n"
+                     f"    call obj%run()\n    call cyc%run()\n    obj%c_{tail[-1]} = cyc%c_{ts[0]}\n  end subroutine use_it\nend module cmod\n")
+    elif shape == "proc-self-interface":
+        # procedures whose dummy procedures name the procedure itself (or each other, a ring of n) as their interface
+        ps = names("cprc", n)
+        unitsrc = ""
+        for i, p in enumerate(ps):
+            nxt = ps[(i + 1) % n]
+            kind = ["subroutine", "function"][v % 2]
+            res = f"    integer :: {p}\n    {p} = 1\n" if kind == "function" else f"    call cb(cb)\n"
+            unitsrc += f"  {kind} {p}(cb)\n    procedure({nxt}) :: cb\n{res}  end {kind} {p}\n"
+        ptr = f"  procedure({ps[0]}), pointer :: pp => {ps[0]}\n" if v % 3 == 0 else ""
+        use = "".join(f"    call {p}({ps[(i+1)%n]})\n" for i, p in enumerate(ps)) if v % 2 == 0 else "".join(f"    k = {p}({ps[(i+1)%n]})\n" for i, p in enumerate(ps))
+        units.append(f"module cmod\n  implicit none\n{filler}{ptr}  integer :: k\ncontains\n{unitsrc}  subroutine use_it()\n{use}  end subroutine use_it\nend module cmod\n")
+        words |= set(ps) | {"cb"}
+    elif shape == "include-between-scopes":
+        # n files of loose declarations, each with a procedure that INCLUDEs the next file (containment ring)
+        fs = [f"cloose{i+1}.f90" for i in range(n)]
+        files = {}
+        for i, f in enumerate(fs):
+            host = ["subroutine", "function"][v % 2]
+            files[f] = (f"integer :: lv{i+1}\n{filler}contains\n{host} inner{i+1}()\n  include '{fs[(i+1)%n]}'\n"
+                        + (f"  lv{i+1} = lv{(i+1)%n+1}\n" if v % 3 else "") + f"end {host} inner{i+1}\n")
+        if v % 4 == 0:
+            files["cmain.f90"] = f"program cmain\n  implicit none\n  include '{fs[0]}'\nend program cmain\n"
+        return files, {f"lv{i+1}" for i in range(n)} | {f"inner{i+1}" for i in range(n)}
     # distribute units over files
     files = {}
     k = max(1, min(nfiles, len(units)))
